@@ -260,3 +260,77 @@ func VxH_C14_settings(opA, opB int) {
 	xsync.VxObserve("count", c.Count())
 	xsync.VxReach("end")
 }
+
+// VxH_C16_cache: a writer is stalled at an arbitrary point of a cache call
+// (GetOrCompute / Compute parked inside the user function while holding the
+// key's bucket lock, Set, Delete); the reader then runs alone on the real
+// stack and must complete without waiting: lookups of a present-and-unexpired
+// or absent key, and Count.
+func VxH_C16_cache(wop, rop int) {
+	now := xsync.VxI64("now")
+	xsync.VxAssume(now >= 0 && now < 1<<62)
+	xsync.VxClockSet(now)
+	c := vxNewCache(1, NoExpiration, nil)
+	k1 := xsync.VxStr("k1")
+	pv := xsync.VxInt("pv")
+	has1 := xsync.VxBool("has1")
+	e1 := xsync.VxI64("pe1")
+	xsync.VxAssume(e1 >= 0)
+	// the claim is about keys that are present-and-unexpired or absent
+	xsync.VxAssume(!has1 || !(e1 > 0 && now > e1))
+	if has1 {
+		vxPut(c, k1, pv, e1)
+	}
+	kW, kR := xsync.VxStr("kW"), xsync.VxStr("kR")
+	nv := xsync.VxInt("nv")
+	xsync.VxAssume(nv != pv)
+	d := time.Duration(xsync.VxI64("d"))
+	var rv interface{}
+	var rok bool
+	var ttl time.Duration
+	var cnt int
+	bv, bok := interface{}(nil), false
+	if has1 && kR == k1 {
+		bv, bok = pv, true
+	}
+	xsync.VxReach("pre-state built")
+	xsync.VxParStalled(
+		func() {
+			switch wop {
+			case opGetOrCompute:
+				c.GetOrCompute(kW, func() interface{} { xsync.VxYield(); return nv }, d)
+			case opCompute:
+				c.Compute(kW, func(interface{}, bool) (interface{}, bool) { xsync.VxYield(); return nv, false }, d)
+			case opSet:
+				c.Set(kW, nv, d)
+			case opDelete:
+				c.Delete(kW)
+			}
+		},
+		func() {
+			switch rop {
+			case opGet:
+				rv, rok = c.Get(kR)
+			case opGetWithTTL:
+				rv, ttl, rok = c.GetWithTTL(kR)
+			case opGetWithExpiration:
+				rv, _, rok = c.GetWithExpiration(kR)
+			case opClear: // stands for Count()
+				cnt = c.Count()
+			}
+		},
+	)
+	xsync.VxReach("reader finished")
+	xsync.VxObserve("r.ok", rok)
+	_ = ttl
+	if rop != opClear {
+		if kR != kW {
+			xsync.VxAssert(rok == bok && rv == bv, "stalled writer: a key the writer does not touch reads its stored value")
+		} else {
+			// the writer may or may not have completed its store/delete
+			xsync.VxAssert((rok == bok && rv == bv) || (rok && rv == interface{}(nv)) || (!rok && wop == opDelete), "stalled writer: lookup returns the value before or after the writer's call")
+		}
+	} else {
+		xsync.VxAssert(cnt >= 0 && cnt <= 2, "stalled writer: Count returns")
+	}
+}
